@@ -145,10 +145,73 @@ fn withtext_family(out: &mut Out, ctx: &Ctx) {
     }
 }
 
+/// deterministic family: one annotation whose complex selector names TWO items of a kind (two keys,
+/// two data items, two resources, two datasets, two annotations, a key and a data item), plus a
+/// simple annotation on each; one of the two items is removed (the complex annotation goes with it
+/// and must unindex itself from the entry of the OTHER item too); then new annotations on the
+/// surviving item, and its removal. Every complex kind, either member order, either item removed,
+/// strict and non-strict.
+fn twopath_family(out: &mut Out, ctx: &Ctx) {
+    use crate::sx::a;
+    let r = |t: i64| l(vec![a(0), a(t)]);
+    let text = |res: i64, b: i64, e: i64| l(vec![a(0), r(res), l(vec![a(0), a(b)]), l(vec![a(0), a(e)])]);
+    let data = |set: i64, id: i64, key: i64, v: i64| l(vec![r(set), r(id), r(key), l(vec![a(2), a(v)])]);
+    let ann = |target: Sx| l(vec![a(3), a(-1), target, l(vec![])]);
+    for pair in 0..6 {
+        for kind in 1..=3i64 {
+            for order in 0..2 {
+                for which in 0..2usize {
+                    for strict in 0..2i64 {
+                        // setup, the two members, the removal of member i, a target on member i
+                        let mut ops = vec![l(vec![a(0), a(0), a(6)]), l(vec![a(0), a(1), a(6)]), l(vec![a(1), a(0)]), l(vec![a(1), a(1)])];
+                        ops.push(l(vec![a(2), data(0, 0, 0, 1)]));
+                        ops.push(l(vec![a(2), data(0, 1, 1, 2)]));
+                        ops.push(l(vec![a(2), data(1, 2, 0, 3)]));
+                        ops.push(ann(text(0, 0, 2)));
+                        ops.push(ann(text(1, 1, 3)));
+                        let key = |s: i64, k: i64| l(vec![a(5), r(s), r(k)]);
+                        let dat = |s: i64, d: i64| l(vec![a(6), r(s), r(d)]);
+                        let (m, rm): (Vec<Sx>, Vec<Sx>) = match pair {
+                            0 => (vec![key(0, 0), key(0, 1)], vec![l(vec![a(6), r(0), r(0), a(strict)]), l(vec![a(6), r(0), r(1), a(strict)])]),
+                            1 => (vec![dat(0, 0), dat(0, 1)], vec![l(vec![a(5), r(0), r(0), a(strict)]), l(vec![a(5), r(0), r(1), a(strict)])]),
+                            2 => (vec![l(vec![a(3), r(0)]), l(vec![a(3), r(1)])], vec![l(vec![a(7), r(0)]), l(vec![a(7), r(1)])]),
+                            3 => (vec![l(vec![a(4), r(0)]), l(vec![a(4), r(1)])], vec![l(vec![a(8), r(0)]), l(vec![a(8), r(1)])]),
+                            4 => (
+                                vec![l(vec![a(1), l(vec![a(1), a(0)])]), l(vec![a(1), l(vec![a(1), a(1)])])],
+                                vec![l(vec![a(4), l(vec![a(1), a(0)])]), l(vec![a(4), l(vec![a(1), a(1)])])],
+                            ),
+                            _ => (vec![key(0, 0), dat(1, 2)], vec![l(vec![a(6), r(0), r(0), a(strict)]), l(vec![a(5), r(1), r(2), a(strict)])]),
+                        };
+                        for t in &m {
+                            ops.push(ann(t.clone()));
+                        }
+                        let mut sel = vec![a(7), a(kind)];
+                        if order == 0 {
+                            sel.extend(m.iter().cloned());
+                        } else {
+                            sel.extend(m.iter().rev().cloned());
+                        }
+                        ops.push(l(vec![a(3), a(5), l(sel), l(vec![])]));
+                        ops.push(rm[which].clone());
+                        ops.push(ann(m[1 - which].clone()));
+                        ops.push(ann(m[1 - which].clone()));
+                        ops.push(rm[1 - which].clone());
+                        let req = l(ops);
+                        let (i2, o, nt) = ctx.exec(&req);
+                        out.count("twopath_family");
+                        out.case(&i2, &o, nt, &req);
+                    }
+                }
+            }
+        }
+    }
+}
+
 pub fn generate(out: &mut Out, tier: &str, seed: u64) {
     let thorough = tier == "thorough";
     let ctx = Ctx::new();
     alignment_family(out, &ctx);
+    twopath_family(out, &ctx);
     withtext_family(out, &ctx);
     let mut rng = Rng::new(seed);
     let n = if thorough { 400000 } else { 3000 };
@@ -204,5 +267,5 @@ pub fn generate(out: &mut Out, tier: &str, seed: u64) {
     }
 }
 
-pub const RULE: &str = "a deterministic family of 1296 histories with a complex selector over three annotations on adjacent text, every member without offset / covering the whole target in three alignments / covering a part at either end (the internal RangedAnnotationSelector with and without text triggers, extends, just misses; every complex kind, two orders; then an annotation on it and removals); for every complex target after every operation the stored subselector vector and its expansion, compared with the model's own compression and expansion; a deterministic family of 162 histories in which the text-selection handles of two resources line up with the internal range compression of complex selectors (every complex kind, three member orders, then removal of both resources); seeded random histories of 1..14 (every 4th: 1..40) operations over <=6 resources of 0..8 codepoints, <=4 datasets, all nine selector kinds (text, annotation with and without relative offset, resource, dataset, key, data, Multi/Composite/Directional with 1..4 members incl. consecutive ranges that trigger and just miss range compression), references by id and by handle, shrink_to_fit calls in a third of the histories, data with and without ids, the same data twice, duplicate ids, one in 12 references invalid, removals of annotations/data (strict and not)/keys/resources/datasets (two thirds of the histories); after EVERY operation the outcome and, for every annotation, resource (with every known text selection), dataset (with every key and data item) slot, all reverse lookups through the public API, plus id resolution of 10 tokens per kind and the counting shortcuts (annotations_len / annotations_count of every text selection, key and data item). One evaluation = one item record or operation outcome; non-trivial = history with a successful annotate/removal; distinct = distinct histories.";
+pub const RULE: &str = "a deterministic family of 144 histories in which a complex selector names two items of one kind (keys, data, resources, datasets, annotations, key + data), one of them is removed, new annotations go on the other, which is then removed too (every complex kind, member order, removed member, strict and not); a deterministic family of 1296 histories with a complex selector over three annotations on adjacent text, every member without offset / covering the whole target in three alignments / covering a part at either end (the internal RangedAnnotationSelector with and without text triggers, extends, just misses; every complex kind, two orders; then an annotation on it and removals); for every complex target after every operation the stored subselector vector and its expansion, compared with the model's own compression and expansion; a deterministic family of 162 histories in which the text-selection handles of two resources line up with the internal range compression of complex selectors (every complex kind, three member orders, then removal of both resources); seeded random histories of 1..14 (every 4th: 1..40) operations over <=6 resources of 0..8 codepoints, <=4 datasets, all nine selector kinds (text, annotation with and without relative offset, resource, dataset, key, data, Multi/Composite/Directional with 1..4 members incl. consecutive ranges that trigger and just miss range compression), references by id and by handle, shrink_to_fit calls in a third of the histories, data with and without ids, the same data twice, duplicate ids, one in 12 references invalid, removals of annotations/data (strict and not)/keys/resources/datasets (two thirds of the histories); after EVERY operation the outcome and, for every annotation, resource (with every known text selection), dataset (with every key and data item) slot, all reverse lookups through the public API, plus id resolution of 10 tokens per kind and the counting shortcuts (annotations_len / annotations_count of every text selection, key and data item). One evaluation = one item record or operation outcome; non-trivial = history with a successful annotate/removal; distinct = distinct histories.";
 pub const EXHAUSTIVE: bool = false;
